@@ -244,7 +244,15 @@ public:
   bool is_top() const override { return m_base_dom.is_top(); }
 
   bool operator<=(const array_smashing_t &other) const override {
-    return (m_base_dom <= other.m_base_dom);
+    if (is_bottom()) {
+      return true;
+    } else if (other.is_bottom()) {
+      return false;
+    }
+    // the size of the last access decides whether the smashed scalar
+    // summarizes the array: it is part of the abstract state.
+    return (m_last_access_env <= other.m_last_access_env &&
+            m_base_dom <= other.m_base_dom);
   }
 
   void operator|=(const array_smashing_t &other) override {
